@@ -472,6 +472,7 @@ func (e *Exec) RunPath(w *WorkItem, harness *ssa.Function) *PathResult {
 	e.done = make(chan *pathAbort, 1)
 	t0 := &thread{id: 0, wake: make(chan struct{}, 1), what: "main"}
 	e.threads = []*thread{t0}
+	e.thWG.Add(1)
 	go e.threadMain(t0, harness, nil)
 	t0.wake <- struct{}{}
 	var a *pathAbort
@@ -481,16 +482,17 @@ func (e *Exec) RunPath(w *WorkItem, harness *ssa.Function) *PathResult {
 		a = &pathAbort{status: "engine-error", msg: "path wall-clock timeout"}
 		e.killed = true
 	}
-	// release the other coroutines
+	// release the other coroutines and wait until every one of them is gone
 	e.killed = true
+	e.pathAbortFlag = 1
 	for _, t := range e.threads {
-		if !t.done {
-			select {
-			case t.wake <- struct{}{}:
-			default:
-			}
+		select {
+		case t.wake <- struct{}{}:
+		default:
 		}
 	}
+	e.thWG.Wait()
+	e.pathAbortFlag = 0
 	e.stats.Paths++
 	res := e.res
 	res.Status, res.Msg = a.status, a.msg
